@@ -70,7 +70,7 @@ typedef std::vector<uint8_t> Bytes;
 // size cannot be allocated" is observable as std::bad_alloc in both builds.
 #ifdef VX_ASAN
 extern "C" const char *__asan_default_options() {
-    return "detect_leaks=0:allocator_may_return_null=1:max_allocation_size_mb=3072:abort_on_error=0:exitcode=77:"
+    return "detect_leaks=0:allocator_may_return_null=1:max_allocation_size_mb=1024:abort_on_error=0:exitcode=77:"
            "alloc_dealloc_mismatch=0:new_delete_type_mismatch=0:handle_abort=0";
 }
 extern "C" const char *__ubsan_default_options() { return "print_stacktrace=1:halt_on_error=1:exitcode=78"; }
@@ -251,8 +251,20 @@ template <class T> static void dump_prop_t(Json &j, const PropertyStorageBase *p
     j.key("def"); put_bytes(j, b);
     j.key("vals"); j.begin_arr();
     auto const &v = p->data_vector();
-    for (size_t i = 0; i < v.size(); ++i) { b.clear(); T x = v[i]; Canon<T>::put(b, x); put_bytes(j, b); }
+    bool cut = false;
+    for (size_t i = 0; i < v.size(); ++i) {
+        b.clear();
+        if constexpr (std::is_same_v<T, std::string>) {
+            // a value of absurd size (only fuzzed text files produce one) is logged by its first 64 KiB
+            const std::string &x = v[i];
+            size_t n = std::min<size_t>(x.size(), 65536);
+            cut = cut || n < x.size();
+            b.assign(x.begin(), x.begin() + (long)n);
+        } else { T x = v[i]; Canon<T>::put(b, x); }
+        put_bytes(j, b);
+    }
     j.end_arr();
+    if (cut) j.kv("cut", true);
 }
 static void dump_prop(Json &j, const PropertyStorageBase *pb) {
     j.begin_obj();
@@ -519,7 +531,7 @@ static void run_job(const Job &jb, const std::map<std::string, MeshDef> &meshes)
 }
 
 // ------------------------------------------------------------ main loop
-static long g_timeout_ms = 10000, g_as_mb = 4096;
+static long g_timeout_ms = 10000, g_as_mb = 2048;
 
 static std::string read_tail(const char *path, size_t n) {
     std::ifstream f(path, std::ios::binary);
